@@ -31,7 +31,7 @@ CHECKS = {
     "C03": dict(
         engine="clocksim",
         technique="deterministic simulation: discrete-event chain clock whose events are the lock thresholds (+-1), extremes, independent height/time advance and reorgs moving coin confirmation points; the real parse path runs once and the real check_time_locks at every simulated chain state, compared with an independent per-assertion evaluator; a constructed witness state decides 'rejected as impossible only if unsatisfiable'",
-        text="Seeded search over bundles x clock/reorg event sequences. Every visited chain state compares (parse accepted AND check_time_locks Ok) with an independent per-assertion evaluator (saturating sums, ephemeral rule); a satisfying witness state is constructed and visited whenever one exists, so a satisfiable bundle rejected at parse time is reported; rarely the spends sit at positions around 2^8 / 2^16 of a long bundle. Exploration level: sampling (8 M bundles / ~180 M chain states quick, 200 M bundles thorough). Weakest fit of the claimed properties for this technique: the code under test is two pure functions; what the simulator contributes is the clock, the coin-store history and jump-to-next-threshold exploration.",
+        text="Seeded search over bundles x clock/reorg event sequences. Every visited chain state compares (parse accepted AND check_time_locks Ok) with an independent per-assertion evaluator (saturating sums, ephemeral rule); a satisfying witness state is constructed and visited whenever one exists, so a satisfiable bundle rejected at parse time is reported; rarely the spends sit at positions around 2^8 / 2^16 of a long bundle; one bundle in eight is also run as a quoted generator (run_block_generator2) and as a spend bundle (run_spendbundle) and those conditions are checked at every state too. Exploration level: sampling (8 M bundles / ~180 M chain states quick, 200 M bundles thorough). Weakest fit of the claimed properties for this technique: the code under test is two pure functions; what the simulator contributes is the clock, the coin-store history and jump-to-next-threshold exploration.",
         design_ref="DESIGN.md section 3, C03",
         note="Trusted: the harness's reference evaluator (written from the arithmetic definitions) and its integer classification. Only nowrap=true. Chain states are arbitrary, not only reachable ones. Cost limit ample; signatures not validated.",
     ),
